@@ -58,6 +58,8 @@ FUTURE = [('P1', [E(A('a', 1), 'b'), N('a')])]
 BACK2 = [('P1', [E(A('a', -2), 'b'), N('a')])]
 FUT_AND = [('P1', [E(AND(A('a', 1), A('c')), 'b'), N('a')])]
 OFFSEQ = [('P2', [N('a')]), ('P1', [E(A('a', -2), 'b')])]
+# 2/a is spawned partially satisfied (by 2/c) while 1/a still runs
+ANDPREV = [('P1', [E(AND(A('a', -1), A('c')), 'a')])]
 MIX = [('P1', [N('a')]), ('P2', [E(A('a'), 'b')]),
        ('R1/$', [E(A('b', -1), 'z')])]
 
@@ -87,6 +89,7 @@ def rows(tier):
         ops=[TRIG('2/a'), TRIG('2/b'), TRIG('1/b')], budget=1,
         scheduling={'stop after cycle point': 1}, stop=1)
     add('chain-f2-stopcmd', [('P1', CHAIN)], 2, ops=[STOP(1)], budget=1)
+    add('andprev-f2-stopcmd', ANDPREV, 2, ops=[STOP(1)], budget=1)
     add('queue-f2-stopcmd', [('P1', [N('a')])], 2, ops=[STOP(1)], budget=1,
         queues={'q': {'limit': 1, 'members': ['a']}})
     if tier == 'thorough':
@@ -105,8 +108,11 @@ def rows(tier):
             ops=[TRIG('3/a'), TRIG('2/b')], budget=1,
             options={'stopcp': '1'}, stop=1,
             scheduling={'runahead limit': 'P1'})
-        add('chain-f2-stop+trig', [('P1', CHAIN)], 2,
-            ops=[STOP(1), TRIG('2/a'), TRIG('2/b')], budget=2)
+        add('prev-f2-stop+trig', [('P1', [E(A('a', -1), 'a')])], 2,
+            ops=[STOP(1), TRIG('2/a')], budget=2)
+        add('chain-f2-stop+trigb', [('P1', CHAIN)], 2,
+            ops=[STOP(1), TRIG('2/b')], budget=2,
+            scheduling={'runahead limit': 'P0'})
         add('prev-f3-stopcmd', [('P1', [E(A('a', -1), 'a')])], 3,
             ops=[STOP(1), STOP(2)], budget=2)
         add('chain-f2-paused-stop', [('P1', CHAIN)], 2,
